@@ -217,7 +217,12 @@ func suitesFor(prop string) []Suite {
 	case "C20":
 		return []Suite{cmdSuite("generate", func(r *Rng, i int, tier string) []Op { return genGenerateCase(r) }, 150, 1500, postAny)}
 	case "C16":
-		return []Suite{cmdSuite("loud", func(r *Rng, i int, tier string) []Op { return genLoudCase(r) }, 1000, 6000, postAny)}
+		return []Suite{cmdSuite("loud", func(r *Rng, i int, tier string) []Op {
+			if i%25 == 24 {
+				return genFullTextOutCase(r, []string{"C05", "C11"}[r.Intn(2)])
+			}
+			return genLoudCase(r)
+		}, 1000, 6000, postAny)}
 	case "C06":
 		return []Suite{libSuite(prop), interopSuite()}
 	case "C19":
@@ -228,7 +233,10 @@ func suitesFor(prop string) []Suite {
 		return []Suite{hostileCodecSuite(), hostileFileSuite()}
 	case "C14":
 		return []Suite{codecSuite()}
-	case "C01", "C02", "C03", "C04", "C05":
+	case "C05":
+		// the CLI clause: a write that fails before its final Sync leaves the destination alone
+		return []Suite{libSuite(prop), cmdSuite("cli-fail", func(r *Rng, i int, tier string) []Op { return genCliFailCase(r) }, 40, 600, postAny)}
+	case "C01", "C02", "C03", "C04":
 		return []Suite{libSuite(prop)}
 	}
 	return nil
